@@ -210,7 +210,9 @@ def check_values(sub, lo, serials, world, out_problem):
         return 'density differs'
     if 'lagr_pos' in names:
         d = np.abs(np.asarray(sub['lagr_pos'][lo:hi], dtype=np.float64) - ref['lagr_pos'])
-        if (d > 1e-6 * box).any():
+        # float32 evaluation of idx * float32(box / ppd) - float32(box / 2): the bound scales with the product
+        # (serial numbers of large simulated catalogues put lattice indices far beyond ppd)
+        if (d > 1e-6 * box + 3e-7 * (np.abs(ref['lagr_pos']) + box / 2)).any():
             return 'lagr_pos differs by %g' % d.max()
     if 'rvint' in names and not np.array_equal(np.asarray(sub['rvint'][lo:hi]), rv):
         return 'rvint passthrough is not bit-exact'
